@@ -36,7 +36,9 @@ struct Acc {
     states_capped: bool,
     shapes: HashSet<(usize, u32)>,
     max_height: usize,
-    violations: BTreeMap<String, (u64, Record, Violation)>,
+    /// class -> (run index, record, violation, Some(block start) if the run only violates after
+    /// the earlier runs of its block on the same thread - hidden thread-local state in the library)
+    violations: BTreeMap<String, (u64, Record, Violation, Option<u64>)>,
     violating_runs: u64,
     samples: Vec<Json>,
 }
@@ -64,7 +66,26 @@ impl Acc {
 }
 
 /// Builds and executes run `idx`: everything derives from the run's seed.
-fn one_run(master: u64, idx: u64, collect_states: bool) -> (Record, ExecOut, usize, Flavour) {
+/// Runs `f` on a thread of its own.  Every run (and every minimisation candidate and replay)
+/// gets a FRESH thread, so that thread-local state inside the library under test (generators,
+/// caches, "smallest priority seen so far" records ...) cannot leak from one run into the next:
+/// a run stays a self-contained value and replays exactly in a fresh process.
+fn on_fresh_thread<T: Send>(f: impl FnOnce() -> T + Send) -> T {
+    std::thread::scope(|s| {
+        std::thread::Builder::new()
+            .stack_size(64 << 20)
+            .spawn_scoped(s, move || {
+                rlib_treap::verif::set_priority_source(Some(hook_source));
+                f()
+            })
+            .expect("spawn run thread")
+            .join()
+            .expect("run thread panicked (harness bug)")
+    })
+}
+
+/// Builds and executes run `idx` on the CURRENT thread: everything derives from the run's seed.
+fn run_inner(master: u64, idx: u64, collect_states: bool) -> (Record, ExecOut, usize, Flavour) {
     let mut rng = Rng::new(run_seed(master ^ SALT, idx));
     let strat_i = rng.usize_below(STRATEGIES.len());
     let cfg = gen_cfg(&mut rng);
@@ -73,49 +94,79 @@ fn one_run(master: u64, idx: u64, collect_states: bool) -> (Record, ExecOut, usi
     (Record { priorities, ops, max_len: cfg.max_len }, out, strat_i, cfg.flavour)
 }
 
+/// One run on a thread of its own (digest self-test, by-index replay).
+fn one_run(master: u64, idx: u64, collect_states: bool) -> (Record, ExecOut, usize, Flavour) {
+    on_fresh_thread(move || run_inner(master, idx, collect_states))
+}
+
+/// Runs of one block share a thread (a fresh one per block; spawning a thread per run costs two
+/// orders of magnitude more than a run).  Returns the results in index order.
+const RUN_BLOCK: u64 = 64;
+
+fn run_block(master: u64, from: u64, to: u64, collect_states: bool) -> Vec<(u64, Record, ExecOut, usize, Flavour)> {
+    on_fresh_thread(move || {
+        (from..to)
+            .map(|idx| {
+                let (r, o, s, f) = run_inner(master, idx, collect_states);
+                (idx, r, o, s, f)
+            })
+            .collect()
+    })
+}
+
+/// `exec` on a fresh thread (minimisation candidates, final confirmation, replay).
+fn exec_fresh(rec: &Record) -> ExecOut {
+    let rec = rec.clone();
+    on_fresh_thread(move || exec(&rec, false))
+}
+
 fn ctl(master: u64, runs: u64, replay_dir: &str) -> Json {
     let hook = hook_active();
     // without the hook only ManualInsert priorities are controlled and the library draws from its
     // process-wide generator: that must not happen on several threads at once
     let workers = if hook { workers_from_env() } else { 1 };
     let t0 = std::time::Instant::now();
+    let n_blocks = (runs + RUN_BLOCK - 1) / RUN_BLOCK;
     let accs = par_for(
-        runs,
+        n_blocks,
         workers,
-        |_| {
-            rlib_treap::verif::set_priority_source(Some(hook_source));
-            Acc::new()
-        },
-        move |acc, idx, cutoff| {
+        |_| Acc::new(),
+        move |acc, block, cutoff| {
             let collect = !acc.states_capped;
-            let (rec, out, strat_i, flavour) = one_run(master, idx, collect);
-            acc.runs += 1;
-            acc.steps += out.stats.steps;
-            acc.walks += out.stats.walks;
-            acc.by_strategy[strat_i] += 1;
-            acc.by_flavour[flavour as usize] += 1;
-            for (a, b) in acc.probes.iter_mut().zip(out.stats.probes.iter()) {
-                *a += *b;
-            }
-            acc.max_height = acc.max_height.max(out.stats.max_height);
-            if collect {
-                acc.states.extend(out.stats.state_digests.iter().copied());
-                acc.shapes.extend(out.stats.shapes.iter().copied());
-                if acc.states.len() > STATE_CAP {
-                    acc.states_capped = true;
+            let (from, to) = (block * RUN_BLOCK, ((block + 1) * RUN_BLOCK).min(runs));
+            for (idx, rec, out, strat_i, flavour) in run_block(master, from, to, collect) {
+                acc.runs += 1;
+                acc.steps += out.stats.steps;
+                acc.walks += out.stats.walks;
+                acc.by_strategy[strat_i] += 1;
+                acc.by_flavour[flavour as usize] += 1;
+                for (a, b) in acc.probes.iter_mut().zip(out.stats.probes.iter()) {
+                    *a += *b;
                 }
-            }
-            if acc.samples.len() < 2 && idx % 13 == 4 && rec.ops.len() <= 10 {
-                acc.samples.push(Json::obj().with("run_index", Json::n(idx as i128)).with("priority_strategy", Json::s(STRATEGIES[strat_i].name())).with("record", rec.to_json()));
-            }
-            if let Some(v) = out.violation {
-                acc.violating_runs += 1;
-                cutoff.lower_to(idx + 4096);
-                let class = v.class();
-                match acc.violations.get(&class) {
-                    Some((i, _, _)) if *i <= idx => {}
-                    _ => {
-                        acc.violations.insert(class, (idx, rec, v));
+                acc.max_height = acc.max_height.max(out.stats.max_height);
+                if collect {
+                    acc.states.extend(out.stats.state_digests.iter().copied());
+                    acc.shapes.extend(out.stats.shapes.iter().copied());
+                    if acc.states.len() > STATE_CAP {
+                        acc.states_capped = true;
+                    }
+                }
+                if acc.samples.len() < 2 && idx % 13 == 4 && rec.ops.len() <= 10 {
+                    acc.samples.push(Json::obj().with("run_index", Json::n(idx as i128)).with("priority_strategy", Json::s(STRATEGIES[strat_i].name())).with("record", rec.to_json()));
+                }
+                if let Some(v) = out.violation {
+                    acc.violating_runs += 1;
+                    cutoff.lower_to(block + 64);
+                    let class = v.class();
+                    let better = match acc.violations.get(&class) {
+                        Some((i, _, _, _)) => *i > idx,
+                        None => true,
+                    };
+                    if better {
+                        // does the run violate on its own (fresh thread), or only in the context
+                        // of the runs that shared its thread?
+                        let solo = exec_fresh(&rec).violation.map(|s| s.class() == class).unwrap_or(false);
+                        acc.violations.insert(class, (idx, rec, v, if solo { None } else { Some(from) }));
                     }
                 }
             }
@@ -126,11 +177,11 @@ fn ctl(master: u64, runs: u64, replay_dir: &str) -> Json {
     let mut m = Acc::new();
     let mut first = u64::MAX;
     for a in &accs {
-        for (_, (i, _, _)) in &a.violations {
+        for (_, (i, _, _, _)) in &a.violations {
             first = first.min(*i);
         }
     }
-    let horizon = first.saturating_add(4096);
+    let horizon = first.saturating_add(64 * RUN_BLOCK);
     for a in accs {
         m.runs += a.runs;
         m.steps += a.steps;
@@ -149,14 +200,14 @@ fn ctl(master: u64, runs: u64, replay_dir: &str) -> Json {
         m.shapes.extend(a.shapes);
         m.max_height = m.max_height.max(a.max_height);
         m.violating_runs += a.violating_runs;
-        for (c, (i, r, v)) in a.violations {
+        for (c, (i, r, v, ctx)) in a.violations {
             if i > horizon {
                 continue;
             }
             match m.violations.get(&c) {
-                Some((j, _, _)) if *j <= i => {}
+                Some((j, _, _, _)) if *j <= i => {}
                 _ => {
-                    m.violations.insert(c, (i, r, v));
+                    m.violations.insert(c, (i, r, v, ctx));
                 }
             }
         }
@@ -167,33 +218,52 @@ fn ctl(master: u64, runs: u64, replay_dir: &str) -> Json {
 
     rlib_treap::verif::set_priority_source(Some(hook_source));
     let mut vio = Vec::new();
-    for (class, (idx, rec, v)) in m.violations.iter().take(10) {
-        let (mut min_rec, evals) = minimise(rec, class, 20_000);
-        let fv = match exec(&min_rec, false).violation {
-            Some(fv) => fv,
-            None => {
-                // never pair a violation with a record that does not show it
-                min_rec = rec.clone();
-                v.clone()
-            }
-        };
-        let prop = fv.property();
+    for (class, (idx, rec, v, ctx)) in m.violations.iter().take(10) {
+        let prop = v.property();
         let path = format!("{}/{}-ctl-{}-{}.json", replay_dir, prop, master, idx);
-        let file = Json::obj()
-            .with("property", Json::s(prop))
-            .with("seed", Json::n(master as i128))
-            .with("run_index", Json::n(*idx as i128))
-            .with("violation", fv.to_json())
-            .with("minimiser_evaluations", Json::u(evals))
-            .with("original_size", Json::obj().with("ops", Json::u(rec.ops.len())).with("priorities", Json::u(rec.priorities.len())))
-            .with("record", min_rec.to_json());
+        let (file, detail) = match ctx {
+            None => {
+                let (mut min_rec, evals) = minimise(rec, class, 20_000, &exec_fresh);
+                let fv = match exec_fresh(&min_rec).violation {
+                    Some(fv) => fv,
+                    None => {
+                        // never pair a violation with a record that does not show it
+                        min_rec = rec.clone();
+                        v.clone()
+                    }
+                };
+                (
+                    Json::obj()
+                        .with("property", Json::s(prop))
+                        .with("seed", Json::n(master as i128))
+                        .with("run_index", Json::n(*idx as i128))
+                        .with("violation", fv.to_json())
+                        .with("minimiser_evaluations", Json::u(evals))
+                        .with("original_size", Json::obj().with("ops", Json::u(rec.ops.len())).with("priorities", Json::u(rec.priorities.len())))
+                        .with("record", min_rec.to_json()),
+                    fv.detail.clone(),
+                )
+            }
+            Some(from) => (
+                // the run violates only after the earlier runs of its block on the same thread: the
+                // library keeps thread-local state between unrelated treaps; replay = the block prefix
+                Json::obj()
+                    .with("property", Json::s(prop))
+                    .with("seed", Json::n(master as i128))
+                    .with("run_index", Json::n(*idx as i128))
+                    .with("violation", v.to_json())
+                    .with("note", Json::s("not reproducible as a single run on a fresh thread: it needs the runs from..to-1 executed before it on the same thread (thread-local state inside the library); replayed as that block prefix"))
+                    .with("record", Json::obj().with("engine", Json::s("treapsim")).with("by_index_block", Json::obj().with("seed", Json::n(master as i128)).with("from", Json::n(*from as i128)).with("to", Json::n(*idx as i128)))),
+                format!("{} [only after runs {}..{} on the same thread]", v.detail, from, idx),
+            ),
+        };
         let written = std::fs::write(&path, file.pretty()).is_ok();
         vio.push(
             Json::obj()
                 .with("property", Json::s(prop))
                 .with("class", Json::s(class))
                 .with("run_index", Json::n(*idx as i128))
-                .with("detail", Json::s(&fv.detail))
+                .with("detail", Json::s(&detail))
                 .with("replay", Json::s(&path))
                 .with("replay_written", Json::Bool(written)),
         );
@@ -244,17 +314,39 @@ fn replay(path: &str) -> i32 {
     };
     let rec_j = j.get("record").unwrap_or(&j);
     match rec_j.str_of("engine") {
+        Some("treapsim") if rec_j.get("by_index_block").is_some() => {
+            let b = rec_j.get("by_index_block").unwrap();
+            let g = |k: &str| b.num_of(k).unwrap_or(0) as u64;
+            let (seed, from, to) = (g("seed"), g("from"), g("to"));
+            println!("replaying controlled-priority runs {}..={} of seed {} on one fresh thread", from, to, seed);
+            let res = simcore::par::with_timeout(simcore::par::hang_limit(), move || run_block(seed, from, to + 1, false).pop().and_then(|(_, _, o, _, _)| o.violation.map(|v| (v.class(), v.detail))));
+            match res {
+                None => {
+                    println!("REPLAY-VIOLATION class=treap/hang// detail=the block did not finish within {} s", simcore::par::hang_limit().as_secs());
+                    1
+                }
+                Some(Some((c, d))) => {
+                    println!("REPLAY-VIOLATION class={} detail={}", c, d);
+                    1
+                }
+                Some(None) => {
+                    println!("REPLAY-CLEAN");
+                    0
+                }
+            }
+        }
         Some("treapsim") if rec_j.get("by_index").is_some() => {
+            // hang / crash containment reports the index the parallel runner iterates over, which
+            // is a BLOCK of RUN_BLOCK consecutive runs executed on one fresh thread
             let b = rec_j.get("by_index").unwrap();
-            let (seed, idx) = (b.num_of("seed").unwrap_or(0) as u64, b.num_of("index").unwrap_or(0) as u64);
-            println!("replaying controlled-priority run index {} of seed {}", idx, seed);
+            let (seed, block) = (b.num_of("seed").unwrap_or(0) as u64, b.num_of("index").unwrap_or(0) as u64);
+            println!("replaying controlled-priority block {} (runs {}..{}) of seed {}", block, block * RUN_BLOCK, (block + 1) * RUN_BLOCK, seed);
             let res = simcore::par::with_timeout(simcore::par::hang_limit(), move || {
-                rlib_treap::verif::set_priority_source(Some(hook_source));
-                one_run(seed, idx, false).1.violation.map(|v| (v.class(), v.detail))
+                run_block(seed, block * RUN_BLOCK, (block + 1) * RUN_BLOCK, false).into_iter().find_map(|(_, _, o, _, _)| o.violation.map(|v| (v.class(), v.detail)))
             });
             match res {
                 None => {
-                    println!("REPLAY-VIOLATION class=treap/hang// detail=the run did not finish within {} s", simcore::par::hang_limit().as_secs());
+                    println!("REPLAY-VIOLATION class=treap/hang// detail=the block did not finish within {} s", simcore::par::hang_limit().as_secs());
                     1
                 }
                 Some(Some((c, d))) => {
@@ -278,8 +370,7 @@ fn replay(path: &str) -> i32 {
             if !hook_active() {
                 println!("note: priority hook not effective; only manual priorities are controlled");
             }
-            rlib_treap::verif::set_priority_source(Some(hook_source));
-            let out = exec(&rec, false);
+            let out = exec_fresh(&rec);
             println!("executed {} steps, {} invariant walks, {} priority draws", out.stats.steps, out.stats.walks, out.drawn.len());
             match out.violation {
                 Some(v) => {
